@@ -2,5 +2,5 @@ SPECIFICATION Spec
 CONSTANTS
   BufSize = 4096
   MaxEmptyReads = 100
-  NilCloseGuarded = FALSE
+  NilCloseGuarded = TRUE
 CHECK_DEADLOCK FALSE
